@@ -128,6 +128,18 @@ def _is_plain_value(v):
     return False
 
 
+def _is_builtin_plain(v):
+    """Plain data made of the built-in types themselves: a typed-list / typed-dict proxy (of another field) parked
+    in an untyped slot is a caller-made alias, not representable data."""
+    if isinstance(v, (list, dict)) and type(v) not in (list, dict):
+        return False
+    if isinstance(v, list):
+        return all(_is_builtin_plain(x) for x in v)
+    if isinstance(v, dict):
+        return all(isinstance(k, str) and _is_plain_value(k) and _is_builtin_plain(x) for k, x in v.items())
+    return _is_plain_value(v)
+
+
 def _is_plain_or_bytes(v):
     """Assignable test values: plain data, with bytes allowed (bytes fields)."""
     if isinstance(v, bytes):
@@ -164,12 +176,12 @@ def _sanitize(world, cfg, node=None):
         if kind == "secure":
             bad = value is not None and not (isinstance(value, str) and _is_plain_value(value))
         elif kind == "any":
-            bad = not _is_plain_value(value)
+            bad = not _is_builtin_plain(value)
         elif kind == "list":
             item = child.get("item")
             if item is None or item["kind"] == "any":
                 # an untyped list keeps a tuple in memory and saves it as a list; anything nested must be plain
-                bad = not _is_plain_value(list(value) if isinstance(value, tuple) else value)
+                bad = value is not None and not all(_is_builtin_plain(x) for x in value)
             elif item["kind"] == "secure":
                 bad = value is not None and not all(isinstance(x, str) and x and _is_plain_value(x) for x in value)
         elif kind == "dict":
@@ -178,7 +190,7 @@ def _sanitize(world, cfg, node=None):
                 if not all(isinstance(k, str) and _is_plain_value(k) for k in value):
                     bad = True
                 elif vf is None or vf["kind"] == "any":
-                    bad = not _is_plain_value(dict(value))
+                    bad = not all(_is_builtin_plain(x) for x in value.values())
                 elif vf["kind"] == "secure":
                     bad = not all(isinstance(x, str) and x and _is_plain_value(x) for x in value.values())
         if bad:
@@ -191,7 +203,7 @@ def _sanitize(world, cfg, node=None):
             else:
                 UNSANITIZED.append(key)  # no replacement is acceptable to this field: the state stays out of domain
     for key in list(cfg._fields):  # dynamic extras
-        if not _is_plain_value(cfg._data.get(key)):
+        if not _is_builtin_plain(cfg._data.get(key)):
             cfg._data[key] = None
 
 
